@@ -264,31 +264,35 @@ func vC16Judge(c *vh.Case, v *vC16View, key string, R []peer.ID, K, limit int, t
 		c.Clause("exact-when-uncrowded")
 		if !vFrtEqualIDs(R, want) {
 			sig := "exact-when-uncrowded"
-			// input class of the suspected defect: a peer with two addresses inside one group is dropped
-			allMulti, missing := true, 0
-			inWant := map[peer.ID]bool{}
-			for _, p := range want {
-				inWant[p] = true
-			}
-			for _, p := range R {
-				if !inWant[p] {
-					allMulti = false // not merely a dropped peer
-				}
-			}
-			for _, p := range want {
-				if !seen[p] {
-					missing++
-					if !v.multi[p] {
-						allMulti = false
-					}
-				}
-			}
-			if missing > 0 && allMulti && limit > 0 {
+			if vC16IsSameGroupDrop(v, key, R, K, limit) {
 				sig = "ipgroup/same-group-addrs-dropped"
 			}
 			c.FailSig("exact-when-uncrowded", sig, "%s: no IP group holds more than limit=%d crawled peers (largest %d) but result %v != K=%d nearest crawled %v (%d crawled)", tag, limit, v.maxGroup, vFrtShorts(R), K, vFrtShorts(want), len(v.members))
 		}
 	}
+}
+
+// vC16IsSameGroupDrop recognises the input class of finding #19: peers with two addresses inside one
+// IP group are dropped and everything else is right (the result is the K nearest of the table
+// without those peers).
+func vC16IsSameGroupDrop(v *vC16View, key string, R []peer.ID, K, limit int) bool {
+	if limit <= 0 {
+		return false
+	}
+	seen := map[peer.ID]bool{}
+	for _, p := range R {
+		seen[p] = true
+	}
+	var rest []peer.ID
+	dropped := 0
+	for _, p := range v.members {
+		if v.multi[p] && !seen[p] {
+			dropped++
+			continue
+		}
+		rest = append(rest, p)
+	}
+	return dropped > 0 && vFrtEqualIDs(R, vsim.Nearest([]byte(key), rest, K))
 }
 
 func vC16SelfCheckDistance(c *vh.Case) {
@@ -441,7 +445,14 @@ func TestVerif_C16_closest(t *testing.T) {
 										ok = false
 									}
 								}
-								c.Check(ok && vFrtEqualIDs(R, vC16Expected(prevView, key, K, limit, R)), "mid-crawl-serves-previous", "generation %d (%s): mid-crawl result %v err=%v is not the answer for the previous completed crawl", g, how, vFrtShorts(R), err)
+								c.Clause("mid-crawl-serves-previous")
+								if !(ok && vFrtEqualIDs(R, vC16Expected(prevView, key, K, limit, R))) {
+									sig := "mid-crawl-serves-previous"
+									if ok && vC16IsSameGroupDrop(prevView, key, R, K, limit) {
+										sig = "ipgroup/same-group-addrs-dropped"
+									}
+									c.FailSig("mid-crawl-serves-previous", sig, "generation %d (%s): mid-crawl result %v err=%v is not the answer for the previous completed crawl", g, how, vFrtShorts(R), err)
+								}
 							}
 						}
 					}
@@ -852,6 +863,9 @@ func vC16SafetyOps(t *testing.T, c *vh.Case, self peer.ID) {
 	nonEmptyNoK := r.Intn(24) == 0
 	if nonEmptyNoK {
 		cfg.NoBucketSize, crawlerKind, disable = true, "members", ""
+		if r.Intn(2) == 0 {
+			cfg.NoLimitOpt, cfg.Limit = false, 0 // limit explicitly disabled: step stays 0 even when the configured limit reaches the instance
+		}
 	}
 	order := r.Perm(17)
 	nKeys := 1 + r.Intn(20)
